@@ -180,4 +180,11 @@ def obligations(tier, seed):
     obs.append(Ob(id='C14.static.unblocked-division-collapses', prop='C14', group='C14.static', prelude='', wrappers=[], inputs=[], kind='S', body=UB,
                   contract='static facts: q1 / unblock_int_div(q2) collapses to a raw number when the units cancel, exactly as q1 / q2 does',
                   functions_under_contract=('au::operator/(Quantity, AlwaysDivisibleQuantity)',)))
+    # ---- negative compile probes: programs the property says are REJECTED must be rejected by the library's own guard (supporting static facts, decided by the compilers)
+    NHDR = '#include "au/au.hh"\n#include "au/units/feet.hh"\n#include "au/units/inches.hh"\n#include "au/units/meters.hh"\n#include "au/units/seconds.hh"\n#include "au/units/hertz.hh"\n#include "au/units/percent.hh"\n#include "au/units/celsius.hh"\n#include "au/units/kelvins.hh"\nusing namespace au;\n'
+    for (nm_, expr_, rx_) in [('int-div-same-dimension', 'feet(10) / inches(3)', 'Integer division forbidden'), ('int-div-same-dimension-rev', 'inches(10) / feet(3)', 'Integer division forbidden'), ('int-div-raw-by-percent', '10 / percent(3)', 'Integer division forbidden'), ('int-div-different-dimension', 'meters(10) / seconds(3)', 'Integer division forbidden'), ('int-div-raw-by-quantity', '10 / seconds(3)', 'Integer division forbidden'), ('as-raw-number-dimensioned', 'as_raw_number(meters(3))', 'same-dimension units'), ('as-raw-number-dimensioned-fp', 'as_raw_number(meters(3.0) / seconds(2.0))', 'same-dimension units')]:
+        obs.append(Ob(id='C14.static.rejects.' + nm_, prop='C14', group='C14.static', prelude='', wrappers=[], inputs=[], kind='S',
+                      body=NHDR + 'int main() { auto vf_x = ' + expr_ + '; (void)vf_x; }\n', dfcc=dict(expect='reject', match=rx_),
+                      contract='must not compile: `' + expr_ + '` (integer division of non-equivalent units needs unblock_int_div; as_raw_number accepts only dimensionless quantities; diagnostic /' + rx_ + '/)',
+                      functions_under_contract=('compile-time guard',)))
     return obs
